@@ -4,6 +4,7 @@ import (
 	"bytes"
 	"encoding/binary"
 	"fmt"
+	"github.com/tobgu/qframe/config/newqf"
 	"hash/fnv"
 	"io"
 	"math"
@@ -678,5 +679,79 @@ func TestC05Blocks(t *testing.T) {
 	}
 	evC05.CaseHash(true, 0x424c4f43, func() string {
 		return fmt.Sprintf("block sizes: Distinct and GroupBy on %v rows with keys of period 1 … n, three arrangements (%d runs)", sizes, runs)
+	}, "block-sizes")
+}
+
+// TestC18Blocks: like/ilike over columns of 4099 … 70001 rows (code that matches in blocks or side by side), string and
+// enum column with the same cells, plain and reversed, literal and regexp patterns: both agree with the pattern model.
+func TestC18Blocks(t *testing.T) {
+	sizes := []int{4099, 65536, 65537, 70001}
+	if tier() == "thorough" {
+		sizes = append(sizes, 131073, 262147)
+	}
+	pool := []string{}
+	for _, a := range []string{"ab", "Ab", "aB", "AB", "xy", "äö", "ÄÖ", "", "b", "ß", "x.y", "a b"} {
+		for _, b := range []string{"", "1", "12", "c", "C", "é"} {
+			pool = append(pool, a+b)
+		}
+	}
+	patterns := []string{"ab%", "%b1%", "ab12", "%2", "%", "AB%", "%äö%", "a[bB]1.*", "^x.*y$", "%C", "x.y", "%b%"}
+	runs := 0
+	for _, n := range sizes {
+		rng := hx.SplitMix(blockSeed() ^ uint64(n)*0x9e3779b97f4a7c15)
+		cells := make([]*string, n)
+		for r := range cells {
+			if rng.Intn(11) != 0 {
+				cells[r] = hx.Sp(pool[rng.Intn(len(pool))])
+			}
+		}
+		qf := qframe.New(map[string]interface{}{"s": cells, "e": cells, "id": hx.Iota(n)}, newqf.Enums(map[string][]string{"e": nil}))
+		if qf.Err != nil {
+			t.Fatal(qf.Err)
+		}
+		rev := qf.Sort(qframe.Order{Column: "id", Reverse: true})
+		for _, pat := range patterns {
+			for _, comp := range []string{"like", "ilike"} {
+				match, err := hx.LikeModel(pat, comp == "ilike")
+				if err != nil {
+					t.Fatal(err)
+				}
+				var want []int
+				for r, c := range cells {
+					if c != nil && match(*c) {
+						want = append(want, r)
+					}
+				}
+				wantRev := make([]int, len(want))
+				for i, r := range want {
+					wantRev[len(want)-1-i] = r
+				}
+				for fi, f := range []qframe.QFrame{qf, rev} {
+					w := want
+					if fi == 1 {
+						w = wantRev
+					}
+					for _, col := range []string{"s", "e"} {
+						res := f.Filter(qframe.Filter{Column: col, Comparator: comp, Arg: pat})
+						if res.Err != nil {
+							t.Fatalf("%d rows: %s %s %q: %v", n, col, comp, pat, res.Err)
+						}
+						got := res.MustIntView("id").Slice()
+						if len(got) != len(w) {
+							t.Fatalf("%d rows (frame %d): column %s %s %q selects %d rows, the pattern model %d", n, fi, col, comp, pat, len(got), len(w))
+						}
+						for i := range got {
+							if got[i] != w[i] {
+								t.Fatalf("%d rows (frame %d): column %s %s %q: selected row %d is id %d, the pattern model says %d (cell %s)", n, fi, col, comp, pat, i, got[i], w[i], ptrStr(cells[w[i]]))
+							}
+						}
+						runs++
+					}
+				}
+			}
+		}
+	}
+	evC18.CaseHash(true, 0x424c4f43^blockSeed(), func() string {
+		return fmt.Sprintf("block pass: %d like/ilike filters on string and enum columns of %v rows", runs, sizes)
 	}, "block-sizes")
 }
